@@ -292,7 +292,11 @@ fn compare_obs(t: &mut Tally, case: &Value, board: &Board, exp: &Value, moved: b
     let text = exp["fen"].as_str().unwrap_or("");
     match text.parse::<Board>() {
         _ if !in_text_range => {}
-        Err(e) => t.mismatch("C05", "parse-canonical", case, json!(text), json!(format!("{e:?}"))),
+        Err(e) => {
+            // a canonical text that is rejected breaks both C05 (round trip) and C06 (acceptance)
+            t.mismatch("C05", "parse-canonical", case, json!(text), json!(format!("{e:?}")));
+            t.mismatch("C06", "canonical-rejected", case, json!(text), json!(format!("{e:?}")));
+        }
         Ok(parsed) => {
             if !same_board(&parsed, board) || parsed.half_move_clock() != board.half_move_clock()
                 || parsed.full_move_clock() != board.full_move_clock()
@@ -513,5 +517,246 @@ pub fn record_walk(opts: &Opts) -> i32 {
     out.flush().unwrap();
     t.add("events", events);
     t.summary(json!({"out": out_path}));
+    0
+}
+
+// ------------------------------------------------------------------------------------------------
+// C06: the parser on arbitrary byte strings, the builder on arbitrary assemblies
+// ------------------------------------------------------------------------------------------------
+
+const HOT_BYTES: &[u8] = b"0123456789/ -wbKQkqPNBRpnbrabcdefgh\x00\xff\x80\t\n";
+
+fn mutations(base: &[u8], rng: &mut impl Rng, out: &mut Vec<Vec<u8>>) {
+    let n = base.len();
+    for i in 0..n {
+        // delete, truncate, duplicate, swap
+        let mut d = base.to_vec();
+        d.remove(i);
+        out.push(d);
+        out.push(base[..i].to_vec());
+        let mut dup = base.to_vec();
+        dup.insert(i, base[i]);
+        out.push(dup);
+        if i + 1 < n {
+            let mut sw = base.to_vec();
+            sw.swap(i, i + 1);
+            out.push(sw);
+        }
+        for &b in HOT_BYTES {
+            if b != base[i] {
+                let mut r = base.to_vec();
+                r[i] = b;
+                out.push(r);
+            }
+            // insertion of every hot byte at a seeded third of the indices (all in total over seeds)
+            if rng.gen_range(0..3) == 0 {
+                let mut ins = base.to_vec();
+                ins.insert(i, b);
+                out.push(ins);
+            }
+        }
+        // any byte at all
+        let mut r = base.to_vec();
+        r[i] = rng.gen();
+        out.push(r);
+    }
+    for &b in HOT_BYTES {
+        let mut a = base.to_vec();
+        a.push(b);
+        out.push(a);
+    }
+    // field-level: drop / duplicate / reorder whitespace-separated fields
+    let fields: Vec<&[u8]> = base.split(|&c| c == b' ').collect();
+    for i in 0..fields.len() {
+        let mut f = fields.clone();
+        f.remove(i);
+        out.push(f.join(&b' '));
+        let mut f = fields.clone();
+        f.insert(i, fields[i]);
+        out.push(f.join(&b' '));
+        let mut f = fields.clone();
+        f.swap(i, (i + 1) % fields.len());
+        out.push(f.join(&b' '));
+    }
+    out.push(base.iter().map(|&c| if c == b' ' { b'\t' } else { c }).collect());
+    out.push(base.iter().flat_map(|&c| if c == b' ' { vec![b' ', b' '] } else { vec![c] }).collect());
+}
+
+/// exercise an accepted board through the safe API; returns false if anything looks off
+fn exercise(board: &Board) {
+    let _ = board.to_string();
+    let _ = format!("{board:?}{board:#?}");
+    let _ = board.zobrist();
+    let _ = board.in_check();
+    let n = board.legals().count();
+    let mut k = 0;
+    for m in board.legals() {
+        k += 1;
+        let next = board.move_new(m);
+        if let Some(nb) = next {
+            if has_both_kings(&nb) {
+                let _ = nb.legals().len();
+                let _ = nb.state();
+            }
+        }
+    }
+    let _ = (n, k);
+    let _ = board.state();
+}
+
+pub fn record_fen(opts: &Opts) -> i32 {
+    let roots = read_json_file(&opts.str("roots", "/verif/spec/roots.json"));
+    let seed = opts.num("seed", 1);
+    let shard = opts.num("shard", 0);
+    let shards = opts.num("shards", 1);
+    let cap = opts.num("events", 20000);
+    let full_every = opts.num("full-every", 60);
+    let mut out = std::io::BufWriter::new(std::fs::File::create(opts.str("out", "fen.ndjson")).unwrap());
+    let mut rng = rng(seed, 3000 + shard);
+    let mut t = Tally::new();
+    // bases: the roots of this shard and positions along short walks from them
+    let mut bases: Vec<String> = vec![];
+    for (i, r) in roots.as_array().unwrap().iter().enumerate() {
+        if (i as u64) % shards != shard {
+            continue;
+        }
+        let fen = r["fen"].as_str().unwrap().to_string();
+        if let Ok(mut b) = fen.parse::<Board>() {
+            for _ in 0..3 {
+                if !has_both_kings(&b) {
+                    break;
+                }
+                let l = legal_codes(&b);
+                if l.is_empty() {
+                    break;
+                }
+                b = match b.move_new(decode(*l.choose(&mut rng).unwrap())) {
+                    Some(n) => n,
+                    None => break,
+                };
+                if has_both_kings(&b) && b.half_move_clock() <= 9999 && b.full_move_clock() <= 9999 {
+                    bases.push(b.to_string());
+                }
+            }
+        }
+        bases.push(fen);
+    }
+    let mut events = 0u64;
+    let mut seen: HashSet<String> = HashSet::new();
+    let mut emit = |t: &mut Tally, out: &mut std::io::BufWriter<std::fs::File>, src: &str, text: &[u8], board: &Board, events: &mut u64| {
+        let key = format!("{}", pos_json(board));
+        if !seen.insert(key) {
+            return;
+        }
+        t.inc("accepted_distinct");
+        if *events >= cap {
+            t.inc("accepted_not_logged");
+            return;
+        }
+        let full = full_every > 0 && *events % full_every == 0 && has_both_kings(board);
+        let ev = if full {
+            json!({"ev": "parsed", "src": src, "text": String::from_utf8_lossy(text), "full": true, "obs": obs_json(board, true)})
+        } else {
+            json!({"ev": "parsed", "src": src, "text": String::from_utf8_lossy(text), "full": false, "obs": {"pos": pos_json(board)}})
+        };
+        writeln!(out, "{ev}").unwrap();
+        *events += 1;
+    };
+    for base in &bases {
+        let mut muts = vec![];
+        mutations(base.as_bytes(), &mut rng, &mut muts);
+        for m in muts {
+            t.inc("strings_tried");
+            op!("record-fen parse {:?}", String::from_utf8_lossy(&m));
+            match chess_movegen::fen::parse_fen(&m) {
+                Ok(board) => {
+                    t.inc("strings_accepted");
+                    // whatever was accepted must be usable through the safe API (C07 reads the panic)
+                    if has_both_kings(&board) {
+                        op!("record-fen exercise accepted {:?}", String::from_utf8_lossy(&m));
+                        exercise(&board);
+                    }
+                    emit(&mut t, &mut out, "fen", &m, &board, &mut events);
+                }
+                Err(e) => {
+                    // the error must be printable
+                    let _ = e.to_string();
+                    t.inc("strings_rejected");
+                }
+            }
+            // str entry point agrees with the byte entry point
+            if let Ok(s) = std::str::from_utf8(&m) {
+                if s.parse::<Board>().is_ok() != chess_movegen::fen::parse_fen(&m).is_ok() {
+                    out_line("MISMATCH", &json!({"prop": "C06", "kind": "str-vs-bytes", "case": s, "exp": "same", "got": "differ"}));
+                }
+            }
+        }
+    }
+    // random byte strings and structured-random strings
+    for i in 0..opts.num("random", 20000) {
+        let len = rng.gen_range(0..90);
+        let s: Vec<u8> = (0..len)
+            .map(|_| if i % 2 == 0 { rng.gen() } else { HOT_BYTES[rng.gen_range(0..HOT_BYTES.len())] })
+            .collect();
+        t.inc("strings_tried");
+        op!("record-fen parse random {:?}", s);
+        if let Ok(board) = chess_movegen::fen::parse_fen(&s) {
+            t.inc("strings_accepted");
+            if has_both_kings(&board) {
+                exercise(&board);
+            }
+            emit(&mut t, &mut out, "fen", &s, &board, &mut events);
+        }
+    }
+    // the builder on arbitrary small assemblies
+    use chess_bitboard::Side;
+    for _ in 0..opts.num("builds", 20000) {
+        let mut b = Board::builder();
+        let npieces = rng.gen_range(2..7);
+        let mut desc = String::new();
+        // kings first (sometimes missing / doubled), biased to home squares and to each other
+        let letters = ["K", "k", "R", "r", "P", "p", "Q", "q", "N", "n", "B", "b"];
+        for i in 0..npieces {
+            let ch = if i == 0 { "K" } else if i == 1 && rng.gen_range(0..20) != 0 { "k" } else { letters[rng.gen_range(0..letters.len())] };
+            let s = match rng.gen_range(0..4) {
+                0 => *[0u8, 4, 7, 56, 60, 63].choose(&mut rng).unwrap(),
+                1 => rng.gen_range(24..40),
+                _ => rng.gen_range(0..64),
+            };
+            let (c, p) = piece_of_letter(ch).unwrap();
+            if b.place(sq(s), c, p).is_ok() {
+                desc.push_str(&format!("{ch}{s} "));
+            }
+        }
+        let turn = if rng.gen_bool(0.5) { Color::White } else { Color::Black };
+        b.turn(turn);
+        let mut cr = chess_movegen::CastleRights::empty();
+        let bits = if rng.gen_bool(0.5) { 0 } else { rng.gen_range(0..16) };
+        for (k, (s, c)) in [(Side::King, Color::White), (Side::Queen, Color::White), (Side::King, Color::Black), (Side::Queen, Color::Black)].iter().enumerate() {
+            if bits & (1 << k) != 0 {
+                cr = cr.with(*s, *c);
+            }
+        }
+        b.castle_rights(cr);
+        if rng.gen_range(0..3) == 0 {
+            b.enpassant(File::from_u8(rng.gen_range(0..8)));
+        }
+        b.half_move_clock(rng.gen_range(0..120));
+        b.full_move_clock(rng.gen_range(0..200));
+        desc.push_str(&format!("turn={turn:?} rights={bits}"));
+        t.inc("builds_tried");
+        op!("record-fen build {desc}");
+        if let Ok(board) = b.build() {
+            t.inc("builds_accepted");
+            if has_both_kings(&board) {
+                op!("record-fen exercise built {desc}");
+                exercise(&board);
+            }
+            emit(&mut t, &mut out, "builder", desc.as_bytes(), &board, &mut events);
+        }
+    }
+    out.flush().unwrap();
+    t.add("events", events);
+    t.summary(json!({}));
     0
 }
